@@ -5,7 +5,7 @@
 # and runs the property's quick check (plus extra checks) against it via tools/trymutant.sh.
 set -u
 prop="$1"; v="$2"; shift 2
-wt=/tmp/wt-$prop; sd=$wt/_seed/$v
+wt=${WT_PREFIX:-/tmp/wt}-$prop; sd=$wt/_seed/$v
 export GOFLAGS=-mod=mod GOPROXY=off GOSUMDB=off GOTOOLCHAIN=local
 [ -f $sd/patch.diff ] || { echo "no $sd/patch.diff"; exit 3; }
 cd $wt && git checkout -q -- . && git clean -fdq -e _seed
@@ -22,7 +22,7 @@ go test $rflag -count=1 ./$ddir >/tmp/seed-demo.log 2>&1; demo_rc=$?
 git checkout -q -- . && git clean -fdq -e _seed
 echo "$prop-$v: demo on clean tree rc=$base_rc (want 0); suite with patch rc=$suite_rc (want 0); demo with patch rc=$demo_rc (want != 0)"
 if [ $base_rc -ne 0 ] || [ $suite_rc -ne 0 ] || [ $demo_rc -eq 0 ]; then echo "NOT CONFIRMED"; tail -5 /tmp/seed-suite.log /tmp/seed-demo.log; exit 4; fi
-dst=/verif/seeded/$prop-$v; mkdir -p $dst
+dst=/verif/seeded/$prop-${STORE_AS:-$v}; mkdir -p $dst
 cp $sd/patch.diff $dst/patch.diff; cp $demo $dst/demo_test.go; cp $sd/README.md $dst/README.md 2>/dev/null
 cd /verif
 res=$(tools/mutscratch.sh $dst/patch.diff $prop "$@" 2>&1)
@@ -30,7 +30,7 @@ echo "$res"
 python3 - "$prop" "$v" "$res" <<'PY'
 import json,sys,os
 prop,v,res=sys.argv[1:4]
-dst=f"/verif/seeded/{prop}-{v}"
+dst=f"/verif/seeded/{prop}-"+os.environ.get("STORE_AS", v)
 readme=open(dst+"/README.md").read() if os.path.exists(dst+"/README.md") else ""
 json.dump({"property":prop,"variant":v,"source":"independent sub-agent given only the property text and a scratch worktree",
  "needs_to_manifest":readme[:1500],
